@@ -52,16 +52,19 @@ Transparent == <<0, 0, 0, 0>>
 Formats == {"a8r8g8b8", "x8r8g8b8", "a8"}
 RepNone == 0  RepNormal == 1  RepPad == 2  RepReflect == 3
 
+(* am: the image (id, 0 = none) whose alpha replaces this image's own, placed at (ax, ay): the alpha of the pixel  *)
+(* of THIS image at (x, y) - after translation and repeat - is the map's alpha at (x - ax, y - ay), and 0 outside  *)
+(* the map; the map's own repeat mode, translation and clip play no part.  The image holds a reference on it.     *)
 (* px: row-major sequence of raw <<a, r, g, b>> tuples as stored (for a8: <<a, 0, 0, 0>>; for x8r8g8b8 the first *)
 (* component is the undefined byte).  clip: the image's clip region; srcclip: the clip also applies when the    *)
 (* image is a source or mask (pixman_image_set_source_clipping + has_client_clip).                              *)
 Bits(fmt, w, h, px) ==
     [kind |-> "bits", fmt |-> fmt, w |-> w, h |-> h, px |-> px, clip |-> NoClip, srcclip |-> FALSE,
-     rep |-> RepNone, tx |-> 0, ty |-> 0, ca |-> FALSE, refs |-> 1]
+     rep |-> RepNone, tx |-> 0, ty |-> 0, ca |-> FALSE, refs |-> 1, am |-> 0, ax |-> 0, ay |-> 0]
 (* a solid fill: col = the four 16-bit channels <<a, r, g, b>> of pixman_color_t *)
 Solid(col) ==
     [kind |-> "solid", fmt |-> "a8r8g8b8", w |-> 1, h |-> 1, px |-> <<<<col[1] \div 256, col[2] \div 256, col[3] \div 256, col[4] \div 256>>>>,
-     clip |-> NoClip, srcclip |-> FALSE, rep |-> RepNormal, tx |-> 0, ty |-> 0, ca |-> FALSE, refs |-> 1]
+     clip |-> NoClip, srcclip |-> FALSE, rep |-> RepNormal, tx |-> 0, ty |-> 0, ca |-> FALSE, refs |-> 1, am |-> 0, ax |-> 0, ay |-> 0]
 NoImage == [kind |-> "none"]
 
 (* what a stored tuple means in its format *)
@@ -84,11 +87,17 @@ Fold(c, n, rep) ==
 
 (* the premultiplied <<a, r, g, b>> an image presents at integer position (x, y) of its own coordinate space, *)
 (* before its transform: translation, then repeat, then format                                               *)
+MapAlpha(im, fx, fy) ==
+    LET a == img[im.am]   mx == fx - im.ax   my == fy - im.ay IN
+    IF 0 <= mx /\ mx < a.w /\ 0 <= my /\ my < a.h THEN View(a.fmt, a.px[my * a.w + mx + 1])[1] ELSE 0
+
 PixelAt(im, x, y) ==
     IF im.kind = "solid" THEN im.px[1]
     ELSE LET X == x + im.tx   Y == y + im.ty IN
          IF im.rep = RepNone /\ ~(0 <= X /\ X < im.w /\ 0 <= Y /\ Y < im.h) THEN Transparent
-         ELSE View(im.fmt, im.px[Fold(Y, im.h, im.rep) * im.w + Fold(X, im.w, im.rep) + 1])
+         ELSE LET fx == Fold(X, im.w, im.rep)   fy == Fold(Y, im.h, im.rep)
+                  p  == View(im.fmt, im.px[fy * im.w + fx + 1])
+              IN  IF im.am = 0 THEN p ELSE <<MapAlpha(im, fx, fy), p[2], p[3], p[4]>>
 
 (* the exact rule on a pixel: alpha channel first, each colour channel with the source alpha that applies to it *)
 Blend(op, s, d) ==
@@ -171,10 +180,24 @@ SetRepeat(i, r) == Live(i) /\ img' = [img EXCEPT ![i].rep = r] /\ UNCHANGED reg
 SetTranslation(i, tx, ty) == Live(i) /\ img' = [img EXCEPT ![i].tx = tx, ![i].ty = ty] /\ UNCHANGED reg
 SetComponentAlpha(i, on) == Live(i) /\ img' = [img EXCEPT ![i].ca = on] /\ UNCHANGED reg
 Ref(i) == Live(i) /\ img' = [img EXCEPT ![i].refs = @ + 1] /\ UNCHANGED reg
-(* pixman_image_unref returns TRUE exactly when the image ceased to exist *)
+(* dropping one reference of image j (0 = none) in a pool; an alpha map has no map of its own, so one level suffices *)
+DropRef(pool, j) ==
+    IF j = 0 \/ j \notin DOMAIN pool THEN pool
+    ELSE IF pool[j].refs = 1 THEN [k \in DOMAIN pool \ {j} |-> pool[k]] ELSE [pool EXCEPT ![j].refs = @ - 1]
+(* pixman_image_unref returns TRUE exactly when the image ceased to exist; it then lets go of its alpha map *)
 Unref(i, gone) ==
     /\ Live(i) /\ gone = (img[i].refs = 1)
-    /\ img' = IF gone THEN [j \in DOMAIN img \ {i} |-> img[j]] ELSE [img EXCEPT ![i].refs = @ - 1]
+    /\ img' = IF gone THEN DropRef([j \in DOMAIN img \ {i} |-> img[j]], img[i].am) ELSE [img EXCEPT ![i].refs = @ - 1]
+    /\ UNCHANGED reg
+(* pixman_image_set_alpha_map (a = 0: detach).  The call is honoured only if the map is another image, has no map of  *)
+(* its own, and the image is not itself in use as somebody's map.                                                   *)
+UsedAsMap(i) == \E j \in DOMAIN img : img[j].am = i
+SetAlphaMap(i, a, ax, ay) ==
+    /\ Live(i) /\ (a = 0 \/ (Live(a) /\ a # i /\ img[a].am = 0 /\ img[a].kind = "bits" /\ ~UsedAsMap(i)))
+    /\ LET old == img[i].am
+           p1  == [img EXCEPT ![i].am = a, ![i].ax = IF a = 0 THEN 0 ELSE ax, ![i].ay = IF a = 0 THEN 0 ELSE ay]
+           p2  == IF a # 0 /\ a # old THEN [p1 EXCEPT ![a].refs = @ + 1] ELSE p1
+       IN  img' = IF old # 0 /\ old # a THEN DropRef(p2, old) ELSE p2
     /\ UNCHANGED reg
 MaskOf(mi) == IF mi = 0 THEN NoImage ELSE img[mi]
 Composite(op, si, mi, di, sx, sy, mx, my, dx, dy, w, h) ==
